@@ -5,6 +5,7 @@ package ice
 // C05 — role conflicts resolve by tie-breaker into opposite roles (RFC 8445 §7.3.1.1).
 
 import (
+	"net/netip"
 	"sync/atomic"
 	"context"
 	"fmt"
@@ -330,6 +331,38 @@ func TestVerif_C05_RoleConflictDuo(t *testing.T) {
 		}
 		if sig, msg := d.mirrorCheck(); sig != "" {
 			st.Fail(rt, strings.Replace(sig, "C01/", "C05/duo/", 1), "%s\n%s\nops: %s\nfinal: %s", msg, desc, strings.Join(d.ops, "; "), d.snapshotSel())
+		}
+		// "after which C01 holds": with the roles settled both agents see the same priority for mirrored pairs
+		// (RFC 8445 §7.3.1.1: a role switch recomputes the pair priorities)
+		type pp struct {
+			l, r  netip.AddrPort
+			prio  uint64
+			prflx bool
+		}
+		var pairs [2][]pp
+		for side := 0; side < 2; side++ {
+			ag := d.ag[side]
+			_ = ag.a.loop.Run(ag.a.loop, func(context.Context) {
+				for _, p := range ag.a.checklist {
+					pairs[side] = append(pairs[side], pp{p.Local.addrPort(), p.Remote.addrPort(), p.priority(), p.Remote.Type() == CandidateTypePeerReflexive})
+				}
+			})
+		}
+		for _, pa := range pairs[0] {
+			sa := d.ag[0].sockByLocalAddr(pa.l)
+			if sa == nil || sa.kind == simKindNATHost || pa.prflx {
+				continue // (a peer-reflexive remote carries the priority of the check, not of the peer's candidate)
+			}
+			for _, pb := range pairs[1] {
+				sb := d.ag[1].sockByLocalAddr(pb.l)
+				if sb == nil || sb.kind == simKindNATHost || pb.prflx || pa.r != pb.l || pb.r != pa.l {
+					continue
+				}
+				if pa.prio != pb.prio {
+					st.Fail(rt, "C05/duo/mirrored-pair-priorities-differ", "after the role conflict A sees priority %d and B %d for the mirrored pair %s<->%s (A controlling=%v, B controlling=%v)\n%s",
+						pa.prio, pb.prio, pa.l, pb.l, ra, rb, desc)
+				}
+			}
 		}
 	})
 }
